@@ -22,6 +22,8 @@ import (
 
 const treeID = 2020
 
+
+
 // dest is the destination: the reference backend in PREORDERED_LOG mode. Faults are injected through
 // reflog.Intercept (per batch-start counters from the Case); the sequencer (IntegrateSparse) runs
 // between passes and, by the Case's mask, just before a GetLatestSignedLogRoot call.
@@ -35,9 +37,11 @@ type dest struct {
 	mu       sync.Mutex
 	rootReqs int
 	perStart map[int64]int
+	seen     map[int64]bool // indices that have reached the backend
 	passAdds int
 	pass     int
 	cancel   func(reason string)
+	abort    func(reason string) // cancels the whole run
 	seq      uint64
 }
 
@@ -77,7 +81,7 @@ func reqDigest(r *trillian.AddSequencedLeavesRequest) [32]byte {
 }
 
 func newDest(c *Case, tr []truth, full *mtree.Tree, rec *recorder) *dest {
-	d := &dest{Log: reflog.New(treeID, 1), c: c, rec: rec, full: full, perStart: map[int64]int{}}
+	d := &dest{Log: reflog.New(treeID, 1), c: c, rec: rec, full: full, perStart: map[int64]int{}, seen: map[int64]bool{}}
 	d.Log.Preorder = true
 	for i := 0; i < c.DstLen; i++ {
 		var pl preLeaf
@@ -115,7 +119,11 @@ func (d *dest) integrate() int {
 	d.seq++
 	n := d.seq
 	d.mu.Unlock()
+	before := d.Log.Size()
 	size := d.Log.IntegrateSparse(n)
+	if size > before {
+		d.rec.progress()
+	}
 	d.rec.add(ev{Kind: "integrate", Size: size})
 	return size
 }
@@ -154,6 +162,17 @@ func (d *dest) intercept(c reflog.Call) (proto.Message, error, bool) {
 		d.rec.add(e)
 		return nil, status.Error(codes.Code(p.Fatal), "scripted backend failure"), true
 	}
+	d.mu.Lock()
+	fresh := false
+	for _, l := range req.Leaves {
+		if l != nil && !d.seen[l.LeafIndex] {
+			d.seen[l.LeafIndex], fresh = true, true
+		}
+	}
+	d.mu.Unlock()
+	if fresh {
+		d.rec.progress()
+	}
 	d.rec.add(e)
 	return nil, nil, false
 }
@@ -173,6 +192,15 @@ func (d *dest) GetLatestSignedLogRoot(ctx context.Context, in *trillian.GetLates
 	n := d.rootReqs
 	d.rootReqs++
 	d.mu.Unlock()
+	// every fetchTail begins here
+	if over, first, dead := d.rec.idle(true); over {
+		if first {
+			d.abort("restart-storm")
+		}
+		if dead {
+			panic("c20: restart storm does not end after cancellation")
+		}
+	}
 	if d.c.IntegrateMask>>(uint(n)%16)&1 == 1 {
 		d.integrate()
 	}
